@@ -63,6 +63,14 @@ var propInfo = map[string]struct {
 			"static result types (rtype) are the specification function of C14 (A-RTYPE)",
 			"D14 (DESIGN.md section 6): `=` on two floats is an execution-time type error; the documented `=` is `bytes level equals`, so this is not claimed as a violation here",
 		}},
+	"C03": {"proof",
+		"Row / batch twins, each proved against the same meaning as its row form. (1) Expressions: the interface contract of ExecuteBatch says that a batch that completes has evaluated every row and element i of the result is the value of the expression on pair i; proved for the literal, key / value and ! nodes and, through the documented-meaning predicate doc_bin that the row evaluator was proved to compute (C01), for the vector forms of = != ^= & | > >= < <= + - * / (execEqualBatch, execPrefixMatchBatch, execAndOrBatch, execMathBatch, execNumberCompareBatch, execStringCompareBatch and the dispatcher) with loop invariants over the in-place combination of the operand columns. (2) The filter on a chunk gives exactly the row filter's verdicts. (3) Function calls accept the same argument counts in both forms (D7 repaired). (4) The four batch scans keep, for every pair they return, its position within everything filtered in the call, in strictly ascending order (what AdjustChunkCache needs to re-index the chunk caches; D8 repaired in MultiGetPlan.Batch). LimitPlan / FinalLimitPlan Batch vs Next are C08's contracts (same ghost sequence).",
+		[]string{
+			"NOT covered: that a batch scan returns exactly the filtered pairs of the cursor segment it consumes (only the index bookkeeping is proved), projection / order / aggregate batch forms, the vector forms of the scalar functions, IN / BETWEEN / regexp / string concatenation (thin assumed contracts), the chunk caches (FieldReferenceExpr.ExecuteBatch, AdjustChunkCache: assumed thin contract)",
+			"the vector form of & and | evaluates both operands on every row (no short cut): it can fail where the row form succeeds; the property only demands the converse, which is what is proved",
+			"doc_bin / doc_not restate, through the definitional interface clauses, what BinaryOpExpr.Execute / NotExpr.Execute were proved to compute (same predicates docBin / docNot in both places)",
+			"the registered function bodies are called through function values with assumed frame-only contracts",
+		}},
 	"C04": {"proof",
 		"Two of the three rewriting steps are proved on the real code. (1) Boolean simplification (tryOptimizeAndOr): for an arbitrary pair, wherever the original expression evaluates the rewritten one evaluates to the same Boolean (12 return sites: true & x, x & false, false | x, ... and the all-literal cases), against the documented short-circuit meaning of & and |. (2) Constant folding of a binary node (tryOptimizeBinaryOpExecute): the literal that replaces the node carries exactly the value Execute returned, of the same kind (integer stays integer, float stays float, text stays text, Boolean stays Boolean), the unchecked type assertions cannot fail, and child links are never left nil.",
 		[]string{
